@@ -47,8 +47,10 @@ fn connect_attempts(l: i32, max: Duration, init: Duration, cap: u32) -> Vec<i128
         let fut = client.get_server_endpoints_from_url(url);
         let r = if cap == 0 { vec![0, 0] } else {
             tokio::select! {
-                r = fut => { let k = count.load(Ordering::SeqCst); if r.is_err() { vec![k.min(cap) as i128, 1] } else { vec![-4] } }
+                biased;
                 _ = rx.recv() => vec![cap as i128, 0],
+                // an attempt beyond the cap was made: the loop was still trying after `cap` attempts
+                r = fut => { let k = count.load(Ordering::SeqCst); if r.is_ok() { vec![-4] } else if k > cap { vec![cap as i128, 0] } else { vec![k as i128, 1] } }
                 _ = tokio::time::sleep(Duration::from_secs(10)) => vec![-3, count.load(Ordering::SeqCst) as i128],
             }
         };
